@@ -212,6 +212,25 @@ func (c cast) did(i int) did.DID {
 	return key(c[i%len(c)]).id
 }
 
+// canon maps a principal index of a plan onto the one representative the builder and the
+// model both use: the model compares indices, the builder turns them into DIDs, and the two
+// must denote the same principal for ANY integer a generator composition or a minimiser
+// candidate can produce (negative = none; 0..99 = cast member modulo the cast size;
+// 100.. = look-alike of a cast member, or that member itself where no look-alike exists).
+func (c cast) canon(i int) int {
+	if i < 0 || len(c) == 0 {
+		return -1
+	}
+	if i >= lookAlike {
+		b := (i - lookAlike) % len(c)
+		if c.did(lookAlike+b) == c.did(b) {
+			return b
+		}
+		return lookAlike + b
+	}
+	return i % len(c)
+}
+
 func (c cast) ent(i int) *keyEntry {
 	if i < 0 {
 		i = 0
